@@ -119,7 +119,10 @@ def extraction_crosscheck(prop, goit, sbase, tier, stats):
     must give the same final world (HEAD text, branch files, index bytes, object ids)"""
     import coqeval
     from hist import model_lines, run_model, c_init, c_config, c_add, c_commit, Edit
-    cases = [steps for _, _, steps in corpus_cases(prop)][: (2 if tier == "quick" else 12)]
+    def _weight(steps):
+        # SHA-1 and parsing run inside Coq's VM here: prefer histories with little data
+        return sum(len(a) for st in steps for a in (st.argv if st.kind == "cmd" else [st.path, st.data or b""])) + 40 * len(steps)
+    cases = sorted([steps for _, _, steps in corpus_cases(prop)], key=_weight)[: (2 if tier == "quick" else 12)]
     if not cases:
         cases = [[c_init(), c_config(b"user.name", b"Al Bo"), c_config(b"user.email", b"a@b.cc"),
                   Edit("write", b"d/x y", b"1"), Edit("write", b"d-a", b"2"), c_add([b"."]), c_commit(b"m: x")]]
